@@ -53,7 +53,11 @@ def one(name, notests):
     val = {'error': out[-500:]}
   detected = {}
   for c in checks:
-    rc2, out2 = run(f'cd {V} && tools/apply_seeded.sh {name} {c} --tier quick')
+    scratch = f'/var/tmp/dv-mx-{name}-{c}'
+    cmd = (f'rm -rf {scratch}; mkdir -p {scratch}/dinosaur && cp -r /repo/dinosaur/*.py {scratch}/dinosaur/ && cp -r /repo/dinosaur/data {scratch}/dinosaur/ 2>/dev/null; '
+           f'cd {scratch} && patch -p1 -s < {V}/seeded/{name}/patch.diff && cd {V} && DINOSAUR_REPO={scratch} VERIF_EVIDENCE_DIR={scratch}/evidence ./check {c} --tier quick 2>&1; '
+           f'echo exit=$?; rm -rf {scratch}')
+    rc2, out2 = run(cmd)
     viol = [l for l in out2.splitlines() if l.startswith('VIOLATION')]
     failed = sorted({re.sub(r'\s+', ' ', l.split('failed obligation:')[1].split(' :: ')[0].strip()) for l in out2.splitlines() if 'failed obligation:' in l})
     status = 'exit=' + (out2.strip().splitlines()[-1].split('exit=')[-1] if 'exit=' in out2 else '?')
